@@ -23,6 +23,7 @@ def main():
             print(f'   {label}: {ob.status} paths={ob.paths} proved={ob.proved} cands={getattr(ob, "n_candidates", 0)}')
             for c in ob.candidates[:2]:
                 print('      cand:', json.dumps(c, default=str)[:700])
+                print('      detail:', json.dumps(c.get('detail'), default=str)[:1500])
             for w in ob.inconclusive[:2]:
                 print('      inconclusive:', w)
 
